@@ -936,7 +936,7 @@ func solveFile(o *Obligation, file string, cfg *SolveConfig) {
 	if o.ExpectSat {
 		// vacuity guard: only a definite unsat is a failure; do not spend the long timeout on it
 		race([]string{"z3", "z3new"}, 3)
-	} else if !race([]string{"z3", "z3new", "z3e"}, cfg.t1) || cfg.allAgree {
+	} else if !race([]string{"z3", "z3new", "z3e", "cvc5"}, cfg.t1) || cfg.allAgree {
 		if cfg.allAgree {
 			race([]string{"cvc5"}, cfg.t2)
 		} else {
